@@ -51,7 +51,9 @@ func kBlock(args []string) (string, string) {
 				rt, ct = gowarc.Request, "application/http;msgtype=request"
 			}
 		}
-		rb := gowarc.NewRecordBuilder(rt, gowarc.WithBufferMaxMemBytes(int64(mem)), gowarc.WithFixSyntaxErrors(false), gowarc.WithSpecViolationPolicy(gowarc.ErrIgnore), gowarc.WithSyntaxErrorPolicy(gowarc.ErrIgnore))
+		// the accessors must describe the block whatever options the record was made under (add-missing / repair flags, policies)
+		rb := gowarc.NewRecordBuilder(rt, gowarc.WithBufferMaxMemBytes(int64(mem)), gowarc.WithFixSyntaxErrors(false), gowarc.WithSpecViolationPolicy(gowarc.ErrIgnore), gowarc.WithSyntaxErrorPolicy(gowarc.ErrIgnore),
+			gowarc.WithAddMissingDigest(cfg["adddig"] != "f"), gowarc.WithFixDigest(cfg["fixdig"] != "f"), gowarc.WithAddMissingContentLength(true))
 		rb.AddWarcHeader("Content-Type", ct)
 		_, _ = rb.Write(content)
 		rec, _, err := rb.Build()
@@ -72,7 +74,8 @@ func kBlock(args []string) (string, string) {
 		raw := fmt.Sprintf("WARC/1.1\r\nWARC-Type: %s\r\nWARC-Record-ID: <urn:uuid:1>\r\nWARC-Date: 2020-01-01T00:00:00Z\r\nContent-Type: %s\r\nContent-Length: %d\r\n\r\n", typ, ct, len(content))
 		data := append(append([]byte(raw), content...), "\r\n\r\n"...)
 		spec, _ := strconv.Atoi(cfg["spec"])
-		rec, _, _, err := gowarc.NewUnmarshaler(gowarc.VerifOptions(0, spec, 0, 0, gowarc.WithBufferMaxMemBytes(int64(mem)), gowarc.WithFixSyntaxErrors(false))...).Unmarshal(bufio.NewReader(bytes.NewReader(data)))
+		rec, _, _, err := gowarc.NewUnmarshaler(gowarc.VerifOptions(0, spec, 0, 0, gowarc.WithBufferMaxMemBytes(int64(mem)), gowarc.WithFixSyntaxErrors(false),
+			gowarc.WithAddMissingDigest(cfg["adddig"] != "f"), gowarc.WithFixDigest(cfg["fixdig"] != "f"))...).Unmarshal(bufio.NewReader(bytes.NewReader(data)))
 		if err != nil || rec == nil {
 			return "parse-error", "ok"
 		}
@@ -236,7 +239,7 @@ func genC16(r *rng, n int, tier string, emit func(string, ...string)) {
 			ops = append(ops, op)
 		}
 		stat("block-src", src)
-		emit("block", fmt.Sprintf("src=%s;http=%s;mem=%d;spec=%d", src, tf(isHttp), mem, sub.intn(3)), hx(content), strings.Join(ops, ";"))
+		emit("block", fmt.Sprintf("src=%s;http=%s;mem=%d;spec=%d;adddig=%s;fixdig=%s", src, tf(isHttp), mem, sub.intn(3), tf(sub.chance(2, 3)), tf(sub.chance(2, 3))), hx(content), strings.Join(ops, ";"))
 	}
 	for i := 0; i < n; i++ {
 		sub := r.fork()
